@@ -196,3 +196,17 @@ for _p, _rules in _SOFT.items():
     PROPERTIES[_p]["explanation"] += (" Plumbing functions are additionally compared with their reviewed forms in SOFT mode (KERS): a "
                                       "deviation confined to a few small sites is refuted, a restructuring is left to the dataflow obligations; "
                                       "no definitely-unassigned value is used (R0.UNDEF).")
+
+# attachments made after the third round of seeded changes: the rule that decides the clause was attached to a
+# neighbouring property only
+PROPERTIES["C05"]["rules"] += [eff.order_taint]
+PROPERTIES["C05"]["explanation"] += " Axis order never comes from alphabetical / hash order of names (R7.ORD)."
+PROPERTIES["C10"]["rules"] += [per.per_rules]
+PROPERTIES["C10"]["explanation"] += (" Filter-restricted and constraint-restricted specifications agree only if every period reads V(t+1) through "
+                                     "the state indexer of period t+1 (R3.PER).")
+PROPERTIES["C11"]["rules"] += [eff.order_taint, ker.ker_weights]
+PROPERTIES["C11"]["explanation"] += (" Degenerate transitions reproduce the deterministic solution only if node weights and node values are "
+                                     "paired on the same axes (R7.ORD, KER weights).")
+PROPERTIES["C18"]["rules"] += [per.per_rules]
+PROPERTIES["C18"].setdefault("filter", {})["R3.PER"] = lambda o: o.key.startswith(("PER3", "PER4", "R3.PER"))
+PROPERTIES["C18"]["explanation"] += " The segment arg-max of period t runs over the choice segments of period t (R3.PER3)."
